@@ -235,8 +235,10 @@ func genCl(c *corr.Ctx, i int, odd bool) *Scenario {
 // ---- Run -------------------------------------------------------------------------------------------
 
 func Run(c *corr.Ctx) {
-	c.Rule("unit: clientAddr.fill / net.IP.Equal on address pairs (4-byte, 16-byte, v4-mapped, near-mapped, odd lengths); " +
+	c.Rule("unit: clientAddr.fill / net.IP.Equal on address pairs (4-byte, 16-byte, v4-mapped, near-mapped, odd lengths, zones); " +
 		"srv / cl: add-remove-datagram histories over a small address set run through the real serverUDPListener / clientUDPListener read loops on an injected packet conn; " +
+		"sess: a real Server on an injected listener + packet conns: victims brought to every session state over UDP / TCP, then stolen-id requests from other connections / addresses / zones, owner requests, datagrams from negotiated and foreign sources, connection closures (state of all sessions and connections compared with the model after every operation); " +
+		"kernel (property oracle only): real Server + real Client on loopback, valid RTP/RTCP from another port, 127.0.0.2, 127.1.2.3, ::1 and a dual-stack socket against counters, callbacks and fake-clock timeouts, stolen ids over real TCP from 127.0.0.1 / 127.0.0.2 / 127.9.9.9; " +
 		"a case is non-trivial when it has more than two operations; distinct = distinct op-line sequences")
 	if c.Replay != nil {
 		var sc Scenario
